@@ -565,7 +565,7 @@ class Collada(object):
         scenenode.clear()
         if self.scene is not None:
             sceneid = self.scene.id
-            if sceneid not in self.scenes:
+            if self.scene not in self.scenes:
                 raise DaeBrokenRefError('Default scene %s not found' % sceneid)
             scenenode.append(E.instance_visual_scene(url="#%s" % sceneid))
 
